@@ -62,6 +62,7 @@ def classify(argv, want_trace=True):
     if MM._verif_trace is not None:
         st = [e['name'] for e in MM._verif_trace if e['ev'] == 'Stage']
         res['stage'] = st[-1] if st else None
+        res['stages'] = st
         del MM._verif_trace[:]
     if res['kind']:
         return res
@@ -278,6 +279,7 @@ def run(tier):
                 stage_agree += 1
             elif o['kind'] in ('diag', 'usage', 'crash'):
                 stage_differs.append((sl, rec['stage'], o['stage']))
+    diverged = validate_stage_traces(chk, [(j[1], o) for j, o in zip(jobs, outs)])
     chk.cov['predicted_outcome_agrees'] = agree
     chk.cov['stopping_stage_agrees'] = stage_agree
     chk.cov['stopping_stage_differs'] = len(stage_differs)
@@ -286,9 +288,54 @@ def run(tier):
     chk.cov['scenarios_single'] = sum(1 for j in jobs if len(j[0]) <= 1)
     chk.cov['scenarios_pairs'] = sum(1 for j in jobs if len(j[0]) == 2)
     chk.cov['scenarios_triples'] = sum(1 for j in jobs if len(j[0]) == 3)
-    return chk.finish(
+    rc = chk.finish(
         rule='one case per TLC scenario (no fault, every single fault site, simulated pairs of faults on different '
              'option groups of one base command); non-trivial = at least one fault; distinct by site ids')
+    if rc == 0 and diverged:
+        raise C.Machinery(diverged[0])
+    return rc
+
+
+def validate_stage_traces(chk, runs):
+    """code -> spec: the Stage events of every real run are a behaviour of the pipeline (TraceCmdline.tla, one
+       batched TLC run over the distinct (stage sequence, outcome) pairs); a diagnostic after the frequency loop
+       was entered is a property violation, any other rejection a divergence of model and hooks (exit 2)"""
+    seen = {}
+    for argv, o in runs:
+        if not o.get('stages'):
+            continue
+        key = (tuple(o['stages']), o['kind'])
+        seen.setdefault(key, argv)
+    if not seen:
+        raise C.Machinery('no stage traces recorded (hooks not active?)')
+    keys = sorted(seen)
+    wd = C.workdir('trace-c20')
+    tf = os.path.join(wd, 'traces.json')
+    json.dump([dict(st=list(k[0]), end=k[1]) for k in keys], open(tf, 'w'))
+    res = C.tlc('TraceCmdline', 'MC_TraceCmdline.cfg', name='trace-run-c20', workers=1, env=dict(TRACE_FILE=tf))
+    chk.add_tlc(res)
+    verdicts = []
+    for line in open(res.path):
+        m = re.match(r'^<<"TV", (\d+), (\d+), (\d+), (\d+)>>', line)
+        if m:
+            verdicts.append(tuple(int(x) for x in m.groups()))
+    if len(verdicts) != len(keys):
+        raise C.Machinery('stage trace validation produced %d verdicts for %d traces: %s' % (len(verdicts), len(keys), res.out[-1200:]))
+    chk.cov['stage_traces_validated'] = len(keys)
+    chk.cov['stage_trace_events'] = sum(len(k[0]) for k in keys)
+    diverged = []
+    for t, matched, expected, code in verdicts:
+        st, kind = keys[t - 1]
+        if code == 1:
+            chk.violation(dict(kind='diagnostic-after-the-frequency-loop-started', last_stage=st[-1]),
+                          dict(argv=seen[keys[t - 1]], stages=list(st), outcome=kind))
+        elif code == 2:
+            chk.violation(dict(kind='report-did-not-end-in-the-print-stage', last_stage=st[-1]),
+                          dict(argv=seen[keys[t - 1]], stages=list(st), outcome=kind))
+        elif matched != expected:
+            diverged.append('stage trace rejected by TraceCmdline at event %d of %d (%s; argv %s): model and hooks diverge'
+                            % (matched, len(st), st[max(0, matched - 2):matched + 1], seen[keys[t - 1]]))
+    return diverged
 
 
 def compose(sites, sl):
